@@ -33,3 +33,131 @@ def canon(v, int_as_real=False):
         d["Length"] = v.raw_len if v.raw_len is not None else len(v.data)
         return b"s" + canon(d) + v.data.hex().encode() + b";"
     raise TypeError(repr(v))
+
+
+# ---------------------------------------------------------------------------------------------
+# reader of the canon text form and value equivalence (integers and reals of equal value identified)
+from fractions import Fraction
+
+
+class CanonError(Exception):
+    pass
+
+
+def parse_canon(b):
+    """-> nested python structure: ('n',) ('b',bool) ('i',int) ('r',bits) ('N',bytes) ('S',bytes) ('R',id,gen)
+    ('a',[...]) ('d',[(key,val)...]) ('s',dict_entries,data|None)"""
+    pos = 0
+
+    def num():
+        nonlocal pos
+        st = pos
+        while pos < len(b) and (48 <= b[pos] <= 57 or b[pos] == 45):
+            pos += 1
+        return int(b[st:pos])
+
+    def hexs():
+        nonlocal pos
+        st = pos
+        while pos + 1 < len(b) and chr(b[pos]) in "0123456789abcdef" and chr(b[pos + 1]) in "0123456789abcdef":
+            pos += 2
+        return bytes.fromhex(b[st:pos].decode())
+
+    def entries():
+        nonlocal pos
+        out = []
+        while True:
+            if pos >= len(b):
+                raise CanonError("eof in dict")
+            c = b[pos]
+            if c == 125:
+                pos += 1
+                return out
+            if c == 32:
+                pos += 1
+                continue
+            k = hexs()
+            if b[pos] != 58:
+                raise CanonError("':' expected")
+            pos += 1
+            out.append((k, val()))
+
+    def val():
+        nonlocal pos
+        if pos >= len(b):
+            raise CanonError("eof")
+        c = chr(b[pos])
+        pos += 1
+        if c == "n":
+            return ("n",)
+        if c == "t":
+            return ("b", True)
+        if c == "f":
+            return ("b", False)
+        if c == "i":
+            return ("i", num())
+        if c == "r":
+            v = int(b[pos:pos + 8], 16)
+            pos += 8
+            return ("r", v)
+        if c == "N":
+            x = hexs(); pos += 1
+            return ("N", x)
+        if c == "S":
+            x = hexs(); pos += 1
+            return ("S", x)
+        if c == "R":
+            a = num(); pos += 1
+            return ("R", a, num())
+        if c == "[":
+            out = []
+            while True:
+                if b[pos] == 93:
+                    pos += 1
+                    return ("a", out)
+                if b[pos] == 32:
+                    pos += 1
+                    continue
+                out.append(val())
+        if c == "{":
+            return ("d", entries())
+        if c in "sp":
+            pos += 1
+            d = entries()
+            if pos < len(b) and b[pos] == 33:
+                pos = b.index(b";", pos) + 1
+                return ("s", d, None)
+            x = hexs(); pos += 1
+            return ("s", d, x)
+        raise CanonError("tag %r" % c)
+    v = val()
+    return v
+
+
+def _num(v):
+    if v[0] == "i":
+        return Fraction(v[1])
+    if v[0] == "r":
+        from . import f32
+        bits = v[1]
+        if (bits >> 23) & 255 == 255:
+            return ("nonfinite", bits)
+        neg, q = f32.bits_to_fraction(bits)
+        return -q if neg else q
+    return None
+
+
+def equiv(a, b):
+    """structural equality, integers and reals of equal numeric value identified"""
+    na, nb = _num(a), _num(b)
+    if na is not None or nb is not None:
+        return na is not None and nb is not None and na == nb
+    if a[0] != b[0]:
+        return False
+    if a[0] == "a":
+        return len(a[1]) == len(b[1]) and all(equiv(x, y) for x, y in zip(a[1], b[1]))
+    if a[0] == "d":
+        return len(a[1]) == len(b[1]) and all(k1 == k2 and equiv(x, y) for (k1, x), (k2, y) in zip(a[1], b[1]))
+    if a[0] == "s":
+        return equiv(("d", a[1]), ("d", b[1])) and a[2] == b[2]
+    return a == b
